@@ -206,6 +206,10 @@ def run_check(prop: str, run_rules, *, tier='quick', replay=None, thorough_extra
                 msg = f'{m.rel}: `{helper}` is not a function of the confirmed tree; its call at L{line} of `{caller}` is read in place (extracted helper)'
                 ck.notes.append(msg)
                 print(f'  note: {msg}')
+            if getattr(m, 'constants_read', 0):
+                msg = f'{m.rel}: {m.constants_read} module-level constant(s) that the confirmed tree does not have are read as their literals'
+                ck.notes.append(msg)
+                print(f'  note: {msg}')
             if getattr(m, 'temps_inlined', 0):
                 msg = f'{m.rel}: {m.temps_inlined} single-use temporar(ies) that the confirmed tree does not have are read in place'
                 ck.notes.append(msg)
